@@ -20,7 +20,8 @@ while args:
 meta = json.load(open(os.path.join(cand, 'meta.json')))
 prop = meta['property']
 props = props or [prop]
-sid = '%s-%s' % (prop, os.path.basename(cand.rstrip('/')))
+rnd = [x for x in cand.split('/') if x.startswith('r') and x[1:].isdigit()]
+sid = '%s-%s%s' % (prop, (rnd[0] + '-') if rnd else '', os.path.basename(cand.rstrip('/')))
 patch = os.path.join(cand, 'patch.diff')
 wt = '/tmp/wt/confirm_%s' % sid
 def sh(cmd, **kw):
